@@ -1,9 +1,6 @@
 """What MANIFEST.json claims per property (single source for tools/gen_manifest.py)."""
 
 NOT_APPLICABLE = {
-    'C11': "completeness of a recursive backtracking tree matcher over all programs x derived patterns is an "
-           "inductive property of the search; a static rule would be vacuous or a frozen copy of the algorithm; "
-           "the structural guards it shares with C10 are decided there (DESIGN.md section 7)",
 }
 
 _NOTE = ("Trusted base: CPython 3.12 ast parser and the checker itself (validated by the mutant/twin corpus in "
@@ -11,6 +8,21 @@ _NOTE = ("Trusted base: CPython 3.12 ast parser and the checker itself (validate
          "not decided in DESIGN.md. ")
 
 CLAIMS = {
+    'C11': {
+        'text': "PARTIAL, structural clauses only - completeness of the recursive, backtracking matcher over all "
+                "programs x derivable patterns is an inductive property of the search and is NOT decided. Decided, by "
+                "abstract execution, are two necessary conditions every derivation step relies on: (R1) any_node_match, "
+                "run on a model student tree with a root-level matcher that accepts a chosen set of nodes, tries every "
+                "node as a root and returns exactly the matches that exist, wherever they are (all single nodes and "
+                "several pairs of a 7-node tree); (R2) deep_find_match_Name pairs a ___ or __expr__ placeholder with a "
+                "student node of any of eight kinds in the same position (binding __expr__ to that very node) and "
+                "declines in another position.",
+        'note': _NOTE + "Not decided: sibling windows and youngest-sibling bookkeeping, meta-field matching along the "
+                        "recursion, dropped sibling statements, consistent _var_ renaming - i.e. completeness itself. "
+                        "The placeholder classes themselves are decided under C10.R5.",
+        'technique': 'static analysis: abstract interpretation of any_node_match / deep_find_match_Name on model trees '
+                     'with marker objects (ast only)',
+    },
     'C06': {
         'text': "PARTIAL, structural clauses only - observational equivalence of sandboxed and plain execution is NOT "
                 "decided (it quantifies over run-time values of every program; a differential harness is the right "
